@@ -989,15 +989,26 @@ class DisjointSet(object):
             else:
                 self.group[leadera].add(b)
                 self.leader[b] = leadera
+                self._promote(b)
         else:
             if leaderb is not None:
                 self.group[leaderb].add(a)
                 self.leader[a] = leaderb
+                self._promote(a)
             else:
                 if self.comp is not None and self.comp(a, b) > 0:
                     a, b = b, a
                 self.leader[a] = self.leader[b] = a
                 self.group[a] = set([a, b])
+
+    def _promote(self, k: FNode):
+        """Makes k the leader of its group if it ranks before the leader"""
+        leader = self.leader[k]
+        if self.comp is not None and self.comp(leader, k) > 0:
+            group = self.group.pop(leader)
+            self.group[k] = group
+            for x in group:
+                self.leader[x] = k
 
     def find(self, k: FNode) -> FNode:
         """Find the root of k in the set"""
